@@ -545,6 +545,21 @@ func c13Cases(c *h.Ctx) error {
 					c.Fail("uuid_v1.UUIDv1.FromBytes", "differs-from-Unmarshal", fmt.Sprintf("%x: %v", []byte(k.B), err), smp)
 				}
 				c.Exec(2)
+				// the timestamp of an INSTANT does not depend on the Location the time.Time carries (UTC, fixed offsets,
+				// daylight-saving zones): SetTime(GetTime().In(zone)) gives the timestamp SetTime(GetTime().UTC()) gives
+				if inst := v.GetTime(); !inst.IsZero() {
+					ref := &uuid_v1.UUIDv1{}
+					ref.SetTime(inst.UTC())
+					for _, z := range h.Zones(inst) {
+						x := &uuid_v1.UUIDv1{}
+						x.SetTime(z)
+						c.Exec(1)
+						if x.Time != ref.Time {
+							c.Fail("uuid_v1.UUIDv1.SetTime", "depends-on-time-zone", fmt.Sprintf("the instant %s gives timestamp %d in location %s and %d in UTC", inst.UTC(), x.Time, z.Location(), ref.Time), smp)
+							break
+						}
+					}
+				}
 			}
 		case "v1f":
 			key := fmt.Sprintf("v1f:%s/%x/%x", c13Hex(k.TS), k.CS, []byte(k.Node))
